@@ -416,9 +416,18 @@ class Monitors(object):
         p.rstate = new
         if not p.voter and new != 0:
             self.flag('C18', 'observer_role', 'read-only node %r entered raft state %d' % (p, new))
+        if new == 1:
+            p.cand_since = CLK.now
         if new == 2:
             p.leader_since = CLK.now
-            p.heard = {}
+            # what it heard while it was a candidate (the votes) counts as heard at the start of its leadership; voters it has
+            # not heard from in that election keep the time they really were last heard (an election won without having heard
+            # from a majority must not restart the clock)
+            cs = getattr(p, 'cand_since', None)
+            if cs is None:
+                cs = CLK.now
+            p.heard = dict((k, (CLK.now if t >= cs else t)) for k, t in p.heard.items())
+            p.elected_with = sorted(k for k, t in p.heard.items() if t >= cs)
         if new == 1 and self.quiet is not None and self.quiet.get('leader_seen'):
             la = self.last_ae.get(p.key)
             if la is not None and CLK.now - la < p.conf.raftMinTimeout - 1e-3 and old == 0:
@@ -491,7 +500,11 @@ class Monitors(object):
             return None
         base = p.leader_since if p.leader_since is not None else p._t0
         ms = getattr(p, 'member_since', {})
-        times = sorted((max(p.heard.get(k, base), base, ms.get(k, base)) for k in others), reverse=True)
+        born = getattr(p, 'born_time', base)
+        # a change of the voter set in the leader's view moves the majority: what it had heard of the old majority covers it
+        # until then, so the new one is measured from the change
+        vc = getattr(p, 'view_changed_at', born)
+        times = sorted((max(p.heard.get(k, born), ms.get(k, born), vc) for k in others), reverse=True)
         return p._t0 - times[need - 1]
 
     def after_tick(self, p):
@@ -903,6 +916,8 @@ class Monitors(object):
                 ms = p.member_since = {}
             for k in now_members - (getattr(p, 'prev_members', None) or set()):
                 ms[k] = CLK.now
+            if getattr(p, 'prev_members', None) is not None and now_members != p.prev_members:
+                p.view_changed_at = CLK.now
             p.prev_members = now_members
         self.check_leader(p)
         if p.voter:
